@@ -17,6 +17,9 @@ pub struct ResInfo {
     pub fungible: bool,
     pub divisibility: u8,
     pub name: &'static str,
+    /// anyone may burn / recall (false for XRD)
+    pub burnable: bool,
+    pub recallable: bool,
 }
 
 impl ResInfo {
@@ -125,7 +128,7 @@ impl World {
                 .build();
             let r = w.ledger.exec(shard, "setup:create_fungible", m, vec![]);
             let address = r.receipt().expect_commit(true).new_resource_addresses()[0];
-            w.res.push(ResInfo { address, fungible: true, divisibility: div, name });
+            w.res.push(ResInfo { address, fungible: true, divisibility: div, name, burnable: true, recallable: true });
         }
         for name in ["NA", "NB"] {
             let ids: Vec<u64> = (0..6).map(|_| w.fresh_nf()).collect();
@@ -137,7 +140,7 @@ impl World {
                 .build();
             let r = w.ledger.exec(shard, "setup:create_non_fungible", m, vec![]);
             let address = r.receipt().expect_commit(true).new_resource_addresses()[0];
-            w.res.push(ResInfo { address, fungible: false, divisibility: 0, name });
+            w.res.push(ResInfo { address, fungible: false, divisibility: 0, name, burnable: true, recallable: true });
         }
         // every account gets a vault of every resource
         for a in 1..N_ACCOUNTS {
@@ -155,6 +158,9 @@ impl World {
             let r = w.ledger.exec(shard, "setup:fund", m, vec![]);
             assert!(r.is_success(), "funding failed: {:?}", r.receipt.as_ref().map(rv_ledger::outcome_class));
         }
+        // XRD takes part as a sixth resource (arrives through the faucet's `free`, an invocation the
+        // static analyser does not know); it can be neither burned nor recalled by users
+        w.res.push(ResInfo { address: XRD, fungible: true, divisibility: 18, name: "XRD", burnable: false, recallable: false });
         for a in 0..N_ACCOUNTS {
             for ri in 0..w.res.len() {
                 let v = w.ledger.sim.get_component_vaults(w.accounts[a], w.res[ri].address);
@@ -207,6 +213,12 @@ impl World {
             for ri in 0..self.res.len() {
                 let r = self.res[ri].clone();
                 match self.holding(a, ri) {
+                    Holding::F(x) if !r.burnable => {
+                        if x < BigInt::from(200u32) * one() {
+                            mb = mb.get_free_xrd_from_faucet();
+                            any = true;
+                        }
+                    }
                     Holding::F(x) => {
                         if x < BigInt::from(200u32) * one() {
                             mb = mb.mint_fungible(r.address, Decimal::from(1000u32));
